@@ -246,3 +246,65 @@ Proof.
     + rewrite <- Hm. apply rdev_minor_lt.
   - intros [HM Hm]. apply dev_roundtrip; assumption.
 Qed.
+
+(* ---------- the gnu-tar and mtree writers ---------- *)
+
+Definition char_check (m : N) : bool :=
+  let ty := N.land m S_IFMT in
+  negb ((ty =? S_IFCHR) || (ty =? S_IFBLK)) || eqb (writer_is_char (stat_to_filemode m)) (ty =? S_IFCHR).
+Lemma char_sweep : forallb char_check (all_below 16) = true.
+Proof. vm_compute. reflexivity. Qed.
+
+(* a device is written as a character device exactly when it is one *)
+Lemma writer_char_correct m :
+  m < 2 ^ 16 -> (N.land m S_IFMT = S_IFCHR \/ N.land m S_IFMT = S_IFBLK) ->
+  writer_is_char (stat_to_filemode m) = (N.land m S_IFMT =? S_IFCHR).
+Proof.
+  intros Hm Hty. pose proof (sweep 16 _ char_sweep m Hm) as H. unfold char_check in H. cbv zeta in H.
+  destruct Hty as [E|E]; rewrite E in *; cbn [N.eqb negb orb] in H;
+    change (S_IFCHR =? S_IFCHR) with true in H; change (S_IFBLK =? S_IFBLK) with true in H;
+    change (S_IFBLK =? S_IFCHR) with false in H; change (S_IFCHR =? S_IFBLK) with false in H;
+    cbn [negb orb] in H; apply eqb_prop in H; exact H.
+Qed.
+
+(* before the fix no st_mode whatsoever was taken for a character device *)
+Definition char_prefix_check (m : N) : bool := negb (writer_is_char_prefix (stat_to_filemode m)).
+Lemma char_prefix_sweep : forallb char_prefix_check (all_below 16) = true.
+Proof. vm_compute. reflexivity. Qed.
+Lemma writer_char_prefix_refuted m : m < 2 ^ 16 -> writer_is_char_prefix (stat_to_filemode m) = false.
+Proof. intros Hm. pose proof (sweep 16 _ char_prefix_sweep m Hm) as H. unfold char_prefix_check in H. now apply negb_true_iff in H. Qed.
+
+Definition mtree_mode_check (m : N) : bool := mtree_mode (stat_to_filemode m) =? N.land m 4095.
+Lemma mtree_mode_sweep : forallb mtree_mode_check (all_below 16) = true.
+Proof. vm_compute. reflexivity. Qed.
+(* mode= shows all twelve permission bits *)
+Lemma mtree_mode_correct m : m < 2 ^ 16 -> mtree_mode (stat_to_filemode m) = N.land m 4095.
+Proof. intros Hm. apply N.eqb_eq. exact (sweep 16 _ mtree_mode_sweep m Hm). Qed.
+
+Definition mtree_mode_prefix_check (m : N) : bool := mtree_mode_prefix (stat_to_filemode m) =? N.land m 511.
+Lemma mtree_mode_prefix_sweep : forallb mtree_mode_prefix_check (all_below 16) = true.
+Proof. vm_compute. reflexivity. Qed.
+Lemma mtree_mode_prefix_refuted m : m < 2 ^ 16 -> mtree_mode_prefix (stat_to_filemode m) = N.land m 511.
+Proof. intros Hm. apply N.eqb_eq. exact (sweep 16 _ mtree_mode_prefix_sweep m Hm). Qed.
+
+(* %09d: always nine digits, and they read back as the number *)
+Lemma dec_digits_length k : forall n, length (dec_digits k n) = k.
+Proof. induction k as [|k IH]; intros n; cbn [dec_digits]; [reflexivity|]. rewrite app_length, IH. cbn. lia. Qed.
+
+Lemma read_digits_app a d : read_digits (a ++ [d]) = 10 * read_digits a + d.
+Proof. unfold read_digits. rewrite fold_left_app. reflexivity. Qed.
+
+Lemma read_dec_digits k : forall n, read_digits (dec_digits k n) = n mod 10 ^ N.of_nat k.
+Proof.
+  induction k as [|k IH]; intros n.
+  - cbn. now rewrite N.mod_1_r.
+  - cbn [dec_digits]. rewrite read_digits_app, IH, Nat2N.inj_succ, N.pow_succ_r by lia.
+    assert (Hp : 10 ^ N.of_nat k <> 0) by (apply N.pow_nonzero; lia).
+    rewrite (N.mod_mul_r n 10 (10 ^ N.of_nat k)) by lia. lia.
+Qed.
+
+Lemma fmt_nsec_correct ns : ns < 10 ^ 9 -> length (fmt_nsec ns) = 9%nat /\ read_digits (fmt_nsec ns) = ns.
+Proof.
+  intros H. unfold fmt_nsec. split; [apply dec_digits_length|].
+  rewrite read_dec_digits. apply N.mod_small. exact H.
+Qed.
